@@ -441,3 +441,25 @@ func (p *Program) pfConditionSetsIn(pkgs ...string) []ConditionSet {
 }
 
 func pfJoin(ss []string) string { return strings.Join(ss, "; ") }
+
+// pfReturnCases is returnCases without the synthetic recover block of functions that contain a
+// defer: that block is only entered after a deferred call recovered from a panic, which none of
+// the analysed functions does (a function whose deferred closures call recover() keeps it).
+func (p *Program) pfReturnCases(fn *ssa.Function) []ReturnCase {
+	recovers := false
+	for _, f := range append([]*ssa.Function{fn}, fn.AnonFuncs...) {
+		for _, cc := range callsIn(f) {
+			if b, ok := cc.Common.Value.(*ssa.Builtin); ok && b.Name() == "recover" {
+				recovers = true
+			}
+		}
+	}
+	var out []ReturnCase
+	for _, rc := range p.returnCases(fn) {
+		if !recovers && fn.Recover != nil && rc.Ret.Block() == fn.Recover {
+			continue
+		}
+		out = append(out, rc)
+	}
+	return out
+}
